@@ -78,7 +78,13 @@ func init() {
 					nF++
 					c.guards(f, st, fk+" :: EOF=false", 0, more)
 				case addr == "&packet.EOF":
-					c.Fail(fk+" :: EOF assigned a computed value", w.ipos(st), "EOF = "+val)
+					// EOF := (len(sending) <= max) computed once: the flag *is* the comparison
+					if rest.Match(w, f, normCond(st.Val, true)) {
+						nT++
+						c.OK(fk+" :: EOF is the comparison 'the remaining bytes fit in this packet'", w.ipos(st), val)
+					} else {
+						c.Fail(fk+" :: EOF assigned a computed value", w.ipos(st), "EOF = "+val)
+					}
 				case addr == "&packet.Data":
 					nData++
 					c.Check(val == "ch.sending[:libs/math.MinInt(ch.maxPacketMsgPayloadSize, len(ch.sending))]", fk+" :: packet carries the first min(max, remaining) bytes", w.ipos(st), val, "Data = "+val)
@@ -184,11 +190,15 @@ func init() {
 		// onReceive is only invoked from recvRoutine
 		n := 0
 		for _, f := range w.FuncsInPkg("p2p/conn") {
-			for _, call := range w.callsMatching(f, `^dyn:c\.onReceive\(`) {
+			for _, call := range rawCallInstrs(f) {
+				if !regexp.MustCompile(`^dyn:c\.onReceive\(`).MatchString(w.callStr(call)) {
+					continue
+				}
 				n++
 				isRecv := false
+				root := transparentRoot(f)
 				for _, r := range routines {
-					if r == f && strings.HasSuffix(funcKey(f), "recvRoutine") {
+					if r == root && strings.HasSuffix(funcKey(root), "recvRoutine") {
 						isRecv = true
 					}
 				}
